@@ -680,6 +680,8 @@ def resolve_exec(run, fx):
                 sc[PC + f['n']] = O.Ptr(None) if f.get('ptr') else 0
             sc[PC + '_currOffset'] = O.Rec({PP + 'x': sym('ox'), PP + 'y': sym('oy')})
             sc[PC + '_currShift'] = O.Rec({PP + 'x': sym('sx'), PP + 'y': sym('sy')})
+            sc[PC + '_limit'] = O.Rec({'graphite2::Rect::bl': O.Rec({PP + 'x': sym('lblx'), PP + 'y': sym('lbly')}), 'graphite2::Rect::tr': O.Rec({PP + 'x': sym('ltrx'), PP + 'y': sym('ltry')})})
+            sc[PC + '_origin'] = O.Rec({PP + 'x': sym('orx'), PP + 'y': sym('ory')})
             sc[PC + '_ranges'] = O.It(O.Vec([O.Rec({'#axis': k}) for k in range(4)]), 0)
 
             def closest(I, f, e, obj, a, costs=costs):
@@ -689,6 +691,7 @@ def resolve_exec(run, fx):
             nat = {'graphite2::Zones::closest': closest, 'std::numeric_limits<float>::max': lambda I, f, e, obj, a: O.Poly.of(10 ** 30)}
             it = O.Interp(fx, natives=nat)
             it.MAX_STEPS = 8000
+            it.poly_sign = {}         # a comparison of symbolic quantities (none on the pinned tree) takes its first outcome: one path is enough to show a wrong shift
             colbox = [None]
             cases += 1
             r = it.call(fn, sc, [O.Ptr(None), O.LV(colbox, 0), O.Ptr(None)])
